@@ -79,7 +79,7 @@ def run(tier, seed, rng):
     cov = Coverage('random configurations (world 1-8, every divisor as gradient-worker count, both methods, pre-division, '
                    'colocation, bucket capacities 0 / tiny / 25 MB, symmetric, hook / no-hook, accumulation 1-3, constant or '
                    'callable intervals) x random histories (train / eval iterations, state_dict and memory_usage on all ranks or '
-                   'a subset, load_state_dict into a fresh object) x 3 schedules; non-trivial = 1 < k < W (some rank is not a '
+                   'a subset, load_state_dict into a fresh object, factor-less load_state_dict into the live object on one rank / a subset / all ranks) x 3 schedules; non-trivial = 1 < k < W (some rank is not a '
                    'member of a group that carries traffic) and >= 2 steps; distinct by hash')
     failures: list[Failure] = []
     n = 120 if tier == 'quick' else 1200
@@ -98,6 +98,14 @@ def run(tier, seed, rng):
             cfg['factor_dtype'] = 'bfloat16'; cfg['model_dtype'] = 'float32'
         hist = kfacgen.gen_history(rng, tier, cfg)
         W = cfg['W']
+        if k % 4 == 2 and W > 1:
+            # a factor-less checkpoint restored into the live object after factors exist, on one rank, a random subset or all ranks:
+            # "load_state_dict ... on a subset where no collective is implied"
+            at = next(i for i, e in enumerate(hist) if e[0] == 'train') + 1
+            who = [None, [rng.randrange(W)], sorted(rng.sample(range(W), rng.randint(1, W - 1)))][(k // 4) % 3]
+            hist.insert(rng.randint(at, len(hist)), ['load_nofac', who])
+            if hist[-1][0] != 'train':
+                hist.append(['train', cfg['accumulation_steps']])
         case = {'cfg': cfg, 'history': hist}
         nontriv = 1 < cfg['k'] < W and sum(1 for e in hist if e[0] == 'train') >= 2
         cov.add(case, nontriv, sample_cap=2)
